@@ -17,6 +17,12 @@ var TagBag = Type("TagBag", func() {
 	Attribute("tags", ArrayOf(String, func() { MaxLength(3) }))
 })
 
+var CellT = Type("Cell", func() {
+	Attribute("label", String)
+	Attribute("w", Int)
+	Required("label")
+})
+
 var _ = Service("svc", func() {
 	Method("aliases", func() {
 		Payload(func() {
@@ -47,5 +53,25 @@ var _ = Service("svc", func() {
 			POST("/aliases/{slug}/{rev}")
 			Param("qty")
 		})
+	})
+	// body = array of arrays of a user type whose only validation is Required
+	Method("grid", func() {
+		Payload(ArrayOf(ArrayOf(CellT)))
+		HTTP(func() { POST("/grid") })
+	})
+	// two methods validating a body attribute of the same name with different patterns
+	Method("zip", func() {
+		Payload(func() {
+			Attribute("code", String, func() { Pattern("^[0-9]{2}$") })
+			Attribute("city", String)
+		})
+		HTTP(func() { POST("/zip") })
+	})
+	Method("country", func() {
+		Payload(func() {
+			Attribute("code", String, func() { Pattern("^[A-Z]{2}$") })
+			Attribute("n", Int)
+		})
+		HTTP(func() { POST("/country") })
 	})
 })
